@@ -35,6 +35,16 @@ Theorem c11_malformed_never_widens : forall ext p,
 Proof. exact verify_ip_sound. Qed.
 Print Assumptions c11_malformed_never_widens.
 
+(* the octet-wise mask comparison of the code is the numeric statement "same leading plen bits":
+   for byte-valued octets and every prefix length 0..32 *)
+Theorem c11_numeric_prefix : forall b a0 a1 a2 a3,
+  plen b <= 32 -> o0 b < 256 -> o1 b < 256 -> o2 b < 256 -> o3 b < 256 ->
+  a0 < 256 -> a1 < 256 -> a2 < 256 -> a3 < 256 ->
+  (contains b (V4 a0 a1 a2 a3) = true <->
+   bnum b / 2 ^ (32 - plen b) = num a0 a1 a2 a3 / 2 ^ (32 - plen b)).
+Proof. exact contains_numeric. Qed.
+Print Assumptions c11_numeric_prefix.
+
 (* refresh carries the blocks over unchanged *)
 Theorem c11_refresh_same_blocks : forall blocks bl',
   forallb wf_block blocks = true ->
